@@ -1,8 +1,8 @@
-\* one client, root + 2 child tasks, 4 contexts, depth 3, 3 wire requests: repaired propagation, the property holds
+\* two clients, 2 child tasks, depth 3
 SPECIFICATION Spec
 CONSTANTS
-  Tasks <- T3
-  Roots <- R1
+  Tasks <- T4
+  Roots <- R2
   MaxCtx = 4
   MaxWire = 3
   MaxDepth = 3
